@@ -213,7 +213,7 @@ fn tls_script(rng: &mut Rng, ncmd: usize) -> (Vec<Cmd>, Vec<Script>) {
 }
 
 fn judge(m: &TlsMaterial, c: &TlsCase, o: &TlsObs, rep: &mut Report, d: &dyn Fn() -> J) {
-    let mut fail = |sig: &str, what: String, rep: &mut Report| rep.violations.push(viol("C18", format!("C18 {}", sig), what, d()));
+    let fail = |sig: &str, what: String, rep: &mut Report| rep.violations.push(viol("C18", format!("C18 {}", sig), what, d()));
     if let Outcome::Panic { file, line, msg } = &o.outcome {
         if is_harness_file(file) {
             rep.inconclusive.push(format!("harness panic at {}:{}: {}", file, line, trunc(msg, 100)));
@@ -360,6 +360,139 @@ fn judge(m: &TlsMaterial, c: &TlsCase, o: &TlsObs, rep: &mut Report, d: &dyn Fn(
     if o.world.reads.iter().any(|&(at, n)| at < 36 && at + n < 36) {
         rep.counters.inc("connections_where_sslrequest_was_split");
     }
+}
+
+pub struct TlsTcpObs {
+    pub outcome: Outcome,
+    /// every byte the socket delivered to the client after the greeting packet
+    pub raw_after_greeting: Vec<u8>,
+    pub decrypted: Vec<u8>,
+    pub client_error: Option<String>,
+    pub user_seen: bool,
+}
+
+/// A socket that remembers what it delivered.
+struct Rec {
+    s: std::net::TcpStream,
+    got: Vec<u8>,
+}
+impl std::io::Read for Rec {
+    fn read(&mut self, b: &mut [u8]) -> std::io::Result<usize> {
+        let n = self.s.read(b)?;
+        self.got.extend_from_slice(&b[..n]);
+        Ok(n)
+    }
+}
+impl std::io::Write for Rec {
+    fn write(&mut self, b: &[u8]) -> std::io::Result<usize> {
+        self.s.write(b)
+    }
+    fn flush(&mut self) -> std::io::Result<()> {
+        self.s.flush()
+    }
+}
+
+/// One TLS session against `run_on_tcp` on the loopback interface. `ending`: 0 QUIT, 1 the backend
+/// returns its own error for the last query, 2 a malformed command, 3 the client closes the socket at
+/// a command boundary (no close_notify), 4 it closes inside a packet.
+pub fn run_tls_tcp(m: &TlsMaterial, tls13: bool, nq: usize, ending: u8) -> Result<TlsTcpObs, String> {
+    use std::io::{Read as _, Write as _};
+    let cfg = m.client_config(tls13, false)?;
+    let listener = std::net::TcpListener::bind("127.0.0.1:0").map_err(|e| format!("bind: {}", e))?;
+    let addr = listener.local_addr().map_err(|e| e.to_string())?;
+    let client = std::thread::spawn(move || -> Result<(Vec<u8>, Vec<u8>, Option<String>), String> {
+        let s = std::net::TcpStream::connect(addr).map_err(|e| format!("connect: {}", e))?;
+        let _ = s.set_read_timeout(Some(std::time::Duration::from_secs(60)));
+        let _ = s.set_write_timeout(Some(std::time::Duration::from_secs(60)));
+        let mut s = s;
+        // the greeting, in plaintext
+        let mut h = [0u8; 4];
+        s.read_exact(&mut h).map_err(|e| format!("greeting header: {}", e))?;
+        let len = h[0] as usize | (h[1] as usize) << 8 | (h[2] as usize) << 16;
+        let mut g = vec![0u8; len];
+        s.read_exact(&mut g).map_err(|e| format!("greeting: {}", e))?;
+        let caps = 0x003f_a685 | wire::CLIENT_SSL;
+        s.write_all(&wire::frame(&wire::ssl_request(caps, 1 << 24, 0x21), 1).0).map_err(|e| format!("ssl request: {}", e))?;
+        let mut conn = rustls::ClientConnection::new(cfg, tls::server_name()).map_err(|e| e.to_string())?;
+        let mut rec = Rec { s, got: Vec::new() };
+        let mut plain = Vec::new();
+        let mut cerr = None;
+        {
+            let mut t = rustls::Stream::new(&mut conn, &mut rec);
+            let mut app = wire::frame(&wire::handshake41(caps, 1 << 24, 0x21, CANARY_USER, b"\0"), 2).0;
+            for k in 0..nq {
+                app.extend(wire::frame(&wire::com_text(wire::COM_QUERY, format!("q{}", k).as_bytes()), 0).0);
+            }
+            match ending {
+                0 => app.extend(wire::frame(&[wire::COM_QUIT], 0).0),
+                1 => app.extend(wire::frame(&wire::com_text(wire::COM_QUERY, b"fails"), 0).0),
+                2 => app.extend(wire::frame(&[0x63, 1, 2, 3], 0).0),
+                3 => {}
+                _ => app.extend_from_slice(&[9, 0, 0, 0, 3, b'x']),
+            }
+            if let Err(e) = t.write_all(&app).and_then(|_| t.flush()) {
+                cerr = Some(format!("client write: {}", e));
+            }
+            // read until the replies that are certainly due have arrived, then (for the endings in
+            // which the client goes away) close; otherwise until the server closes
+            let due = 1 + nq;
+            let mut buf = vec![0u8; 1 << 14];
+            loop {
+                if ending >= 3 {
+                    let (pk, _) = wire::packets_prefix(&plain);
+                    if pk.len() >= due {
+                        break;
+                    }
+                }
+                match t.read(&mut buf) {
+                    Ok(0) => break,
+                    Ok(n) => plain.extend_from_slice(&buf[..n]),
+                    Err(e) => {
+                        if e.kind() != std::io::ErrorKind::UnexpectedEof && e.kind() != std::io::ErrorKind::ConnectionReset {
+                            cerr.get_or_insert(format!("client read: {}", e));
+                        }
+                        break;
+                    }
+                }
+            }
+        }
+        if ending >= 3 {
+            let _ = rec.s.shutdown(std::net::Shutdown::Write);
+        }
+        // whatever else the server put on the wire
+        let mut buf = vec![0u8; 1 << 14];
+        loop {
+            match rec.read(&mut buf) {
+                Ok(0) => break,
+                Ok(_) => {}
+                Err(_) => break,
+            }
+        }
+        Ok((rec.got, plain, cerr))
+    });
+    let (stream, _) = listener.accept().map_err(|e| format!("accept: {}", e))?;
+    let _ = stream.set_read_timeout(Some(std::time::Duration::from_secs(60)));
+    let clock: crate::transport::Clock = Rc::new(std::cell::Cell::new(0));
+    let mut scripts: Vec<Script> = (0..nq).map(|k| Script::Q(QProg::completed(k as u64, 0))).collect();
+    if ending == 1 {
+        scripts.push(Script::Fail(0x7c9));
+    }
+    let (mut shim, log) = ScriptShim::new(clock, scripts);
+    shim.tls = Some(std::sync::Arc::new((*m.server_optional).clone()));
+    let _ = take_panic();
+    let r = catch_unwind(AssertUnwindSafe(move || msql_srv::MysqlIntermediary::run_on_tcp(shim, stream)));
+    let outcome = match r {
+        Ok(Ok(())) => Outcome::Ok,
+        Ok(Err(ShimErr::Io(e))) => Outcome::Io { kind: e.kind(), msg: e.to_string() },
+        Ok(Err(ShimErr::Token(t))) => Outcome::Token(t),
+        Err(_) => {
+            let (file, line, msg) = take_panic().unwrap_or(("?".into(), 0, "?".into()));
+            Outcome::Panic { file, line, msg }
+        }
+    };
+    let (raw, decrypted, client_error) = client.join().map_err(|_| "client thread died".to_string())??;
+    let user_seen = log.borrow().cbs.iter().any(|c| matches!(&c.kind, CbKind::Auth { user: Some(u), .. } if u == CANARY_USER));
+    Ok(TlsTcpObs { outcome, raw_after_greeting: raw, decrypted, client_error, user_seen })
 }
 
 pub fn run(ctx: &Ctx) -> Report {
@@ -572,6 +705,62 @@ pub fn run(ctx: &Ctx) -> Report {
         judge(mref, &c, &o, rep, &d);
     });
     rep.merge(r);
+    // ---- the run_on_tcp entry point: a real TLS client on the loopback interface. In-memory transports
+    //      cannot see what run_on_tcp itself does with the socket (it owns the TcpStream and may keep
+    //      a second handle on it). Sessions end the ways sessions end: QUIT, the backend's own error,
+    //      a malformed command, the client going away at a command boundary or inside a packet. Every
+    //      byte that arrives on the socket after the greeting must belong to a TLS record, and what
+    //      the client decrypts must be the replies to its commands.
+    let n = ctx.n(40, 600);
+    let r = par_cases(ctx, "C18", "tcp", n, |rng, i, rep| {
+        let ending = (i % 5) as u8;
+        let tls13 = rng.bool();
+        let nq = rng.range(1, 4);
+        match run_tls_tcp(mref, tls13, nq as usize, ending) {
+            Err(e) => {
+                // an extra layer: without a loopback interface it is skipped and counted
+                rep.counters.inc("loopback_tls_runs_not_possible");
+                if rep.notes.len() < 3 {
+                    rep.notes.push(format!("loopback TLS run could not be set up: {}", e));
+                }
+            }
+            Ok(o) => {
+                rep.evaluations += 1;
+                let ename = ["QUIT", "the backend returns an error", "a malformed command", "the client closes at a command boundary", "the client closes inside a packet"][ending as usize];
+                rep.counters.class(format!("tls over loopback tcp (run_on_tcp), TLS {}, ended by: {}", if tls13 { "1.3" } else { "1.2" }, ename));
+                let d = || J::obj().set("entry_point", "run_on_tcp over 127.0.0.1").set("tls", if tls13 { "1.3" } else { "1.2" }).set("queries", nq).set("ended_by", ename).set("outcome", o.outcome.describe()).set("raw_server_bytes_after_greeting", o.raw_after_greeting.len()).set("client_error", o.client_error.clone().unwrap_or_default());
+                if i < 2 {
+                    rep.sample(d());
+                }
+                if let Outcome::Panic { file, line, msg } = &o.outcome {
+                    rep.violations.push(viol("C18", format!("C18 tcp {}", panic_signature(file, *line, msg)), format!("run_on_tcp panicked during a TLS session: {}", o.outcome.describe()), d()));
+                    return;
+                }
+                if let Err(e) = tls::tls_records(&o.raw_after_greeting) {
+                    rep.violations.push(viol("C18", "C18 tcp plaintext-after-upgrade".into(), format!("after the TLS upgrade the socket carried bytes that are not TLS records: {}", e), d()));
+                    return;
+                }
+                rep.counters.inc("loopback_tls_streams_scanned");
+                if !o.user_seen {
+                    rep.violations.push(viol("C18", "C18 tcp auth-missing".into(), "after_authentication did not see the user of the encrypted handshake response".into(), d()));
+                    return;
+                }
+                // the decrypted stream: auth OK, then one OK per query that was served
+                let (pk, _) = wire::packets_prefix(&o.decrypted);
+                let (msgs, _) = wire::messages_prefix(&o.decrypted, &pk);
+                let oks = msgs.iter().filter(|m| wire::parse_ok(&m.payload).is_ok()).count();
+                if oks < 1 + nq as usize {
+                    rep.violations.push(viol("C18", "C18 tcp replies-missing".into(), format!("the client decrypted {} OK replies, the auth reply and {} queries were due before the session ended", oks, nq), d()));
+                    return;
+                }
+                rep.counters.inc("loopback_tls_sessions_checked");
+            }
+        }
+    });
+    rep.merge(r);
+    if ctx.strict() && rep.counters.get("loopback_tls_runs_not_possible") == 0 {
+        rep.require("loopback_tls_sessions_checked", 20);
+    }
     if ctx.strict() {
         rep.require("connections_compared_with_plaintext", 100);
         rep.require("canary_scans", 100);
